@@ -23,10 +23,17 @@ def rt_literal(name, elems):
 def run(run, args):
     rc, msg = gen_table()
     run.cov["translator"] = msg
+    translator_refused = None
     if rc != 0:
         run.oblige("translator reads table.rs / nist_mass.json", False, msg)
-        violation(run, {"broken": "translator tools/gen_table.py cannot read the source", "detail": msg}, nofail=True)
-    run.oblige("translator reads table.rs / nist_mass.json", True, msg)
+        translator_refused = msg
+        # the source now contains a statement the translator does not know.  Before reporting that alone, look for a concrete
+        # failing element: the tables the CODE builds at run time are still compared with the last translation that was
+        # accepted (coq/gen/Table.v is only rewritten by a successful translation) and with the NIST data
+        if not (os.path.exists(os.path.join(COQ, "gen", "Table.v")) and os.path.exists(os.path.join(COQ, "gen", "Nist.v"))):
+            violation(run, {"broken": "translator tools/gen_table.py cannot read the source", "detail": msg}, nofail=True)
+    else:
+        run.oblige("translator reads table.rs / nist_mass.json", True, msg)
 
     # the code that consumes the table (element.rs: index_isotopes, calc_min/max, PeriodicTable::add/get; helper.rs) = TableModel.v
     source_tie(run, ("element",))
@@ -120,8 +127,12 @@ def run(run, args):
         i = (bad_g or bad_f)[0]
         violation(run, {"failing_input": {"table": which, "element": name_rt(i, lst),
                                           "runtime_value": lst[i] if i < 100000 else None},
-                        "what": "runtime table differs from the statements in table.rs as modelled (element.rs / helper.rs path)",
+                        "what": "runtime table differs from the statements in table.rs as modelled (element.rs / helper.rs path)" +
+                                ("; the translator refused the current table.rs (%s), so the model is the last accepted translation" % translator_refused[:200] if translator_refused else ""),
                         "all": [name_rt(j, lst) for j in (bad_g or bad_f)]})
+    if translator_refused:
+        violation(run, {"broken": "translator tools/gen_table.py cannot read the source", "detail": translator_refused,
+                        "note": "the run-time tables still equal the last accepted translation and the NIST data on every element"}, nofail=True)
     if z64:
         violation(run, {"broken": "dbl_of_dec disagrees with primitive float division", "indices": z64}, nofail=True)
     if broken:
